@@ -12,7 +12,7 @@ for name in $seeds; do
      first=$(echo "$out" | grep "^VIOLATION" | head -1)
      und=$(echo "$out" | grep "^UNDECIDED" | head -2 | tr '\n' ' ' | cut -c1-200)
      obl=""
-     rp=$(echo "$first" | sed -n 's/.*replay=\([^ ]*\).*/\1/p')
+     rp=$(echo "$first" | sed -n "s/.*replay=\([^ ]*\).*/\1/p")
      [ -n "$rp" ] && obl=$(python3 -c "import json;d=json.load(open('$rp'));print(d['obligation'],'| native:',d['native_replay'].get('scenario','-'))")
      echo "$name prop=$prop exit=$rc violations=$nviol :: $obl $und"
   else echo "$name prop=$prop patch-does-not-apply"; fi
